@@ -37,6 +37,10 @@ PROPS = {
     "C08": dict(claim="Bounded symbolic checking of every Stack/Pred/Alu/Memory/ParentMemory op: the real MIR of essential-vm's step_op_* is executed symbolically from every stack of <=6 (thorough 9) and memory of <=4 (6) fully symbolic words and compared with a reference model written from asm.yml incl. the frame condition; the arithmetic kernels are additionally decided on the compiled code by Kani/CBMC.",
                 engine="mirsym+kani", technique="symbolic execution of rustc MIR with z3 (own executor) + Kani/CBMC proof harnesses",
                 outside=["stack/memory shapes above the stated bounds", "EqSet", "the i64 division identity a=q*d+r is decided by K on operands |a|<2^16,|d|<2^8 plus boundary constants; full width only for the error condition and sign rules"]),
+    "C11": dict(claim="The four key-range read ops (real MIR of step_op_state_reads, key_range(_ext), pop_key_range_args, write_values_to_memory) with two distinguishable uninterpreted views: the request goes to the right view (pre/post) for the right contract (the solved contract, or the 4 big-endian external address words) with exactly the popped key and count; the state may answer with an error (returned unchanged as OpError::StateRead) or with 0..2 values of 0..1 (thorough 0..2) words independent of the count; on Ok memory holds [address, length] pairs then the values back-to-back at the given address, every other word and the memory length unchanged, the stack is exactly the words below the operands; values that do not fit, negative operands or missing words are errors. key_len / count / addr are any i64.",
+                outside=["memory above 5 (7) words, keys above 2 words, more than 2 returned values"]),
+    "C12": dict(claim="PredicateData / PredicateDataLen / PredicateDataSlots / ThisAddress / ThisContractAddress on 1..2 solutions with symbolic slots and 32-byte addresses, operands any i64, against asm.yml; Sha256 op: exactly ceil(len/8) words are consumed and the hasher sees exactly their first len bytes for every byte length incl. non-multiples of 8, result = the digest as 4 big-endian words; PredicateExists: one hash per solution over exactly len-prefixed slots ‖ contract ‖ predicate, result 1 iff the popped words equal one of the digests. SHA-256 is an uninterpreted function (equal inputs, equal digests).",
+                outside=["VerifyEd25519 and RecoverSecp256k1 marshalling (ed25519-dalek / libsecp256k1 wrappers are not modelled)", "agreement with the hash/sign crates is by sharing the uninterpreted SHA-256 only", "that SHA-256 itself is computed correctly"]),
     "C13": dict(claim="The macro-generated codec of essential-asm, executed from MIR against an independent reading of asm.yml: Opcode::try_from for every byte value, single-op parsing of any byte string <=10 bytes (consumed length, big-endian Push immediate for all 2^64 values, NotEnoughBytes/InvalidOpcode), to_bytes(parse(b)) = consumed bytes, parse(to_bytes(op)) = op for every op, short-name constants, and from_bytes/to_bytes over streams of <=3 ops.",
                 outside=["streams longer than the bound rely on the single-step result (induction on the stream)", "the pinned opcode table comparison is done by the asm.yml reader at setup"]),
     "C14": dict(claim="BytecodeMapped (generic code instantiated at Op = essential_asm::Op) on symbolic byte streams of <=2 ops quick / <=3 thorough, owned and borrowed containers: mapping succeeds exactly when parsing does, with the same error kind; op_indices, ops(), op(i) incl. out of range, bytecode(), from_iter(ops) and OpAccess::op_access agree pointwise with the parsed list.",
@@ -52,8 +56,6 @@ PROPS = {
 NOT_APPLICABLE = {
     "C02": "thread-schedule independence of the rayon sections: Kani has no concurrency model and ICEs on rayon-reaching code; encoding rayon's work-stealing scheduler for the solver is out of reach; the 'equals the sequential evaluation' half is decided under C01 (DESIGN.md section 5)",
     "C10": "not yet encoded (compute fork/join)",
-    "C11": "not yet encoded (state-read ops)",
-    "C12": "not yet encoded (access / crypto marshalling)",
     "C19": "not yet encoded (signature plumbing)",
     "C20": "not yet encoded (lock)",
 }
